@@ -29,7 +29,7 @@ CASE_TIMEOUT = 240
 WALL = {"quick": 1200, "thorough": 10800}
 MAX_TIMEOUTS = {"quick": 1, "thorough": 20}
 REQUIRED = {"residue_classes": 600, "isomorphism_pairs_checked": 500, "same_name_different_content": 60,
-            "virtual_sites_checked": 300, "vs_kinds": 7, "optimiser_successes_rechecked": 300, "impropers_rechecked": 60,
+            "virtual_sites_checked": 300, "vs_kinds": 7, "stacked_site_residues": 20, "optimiser_successes_rechecked": 300, "impropers_rechecked": 60,
             "user_templates": 40, "user_volumes": 60, "equivariance_checks": 500, "size_independence_checks": 25,
             "optimiser_failures_seen": 30, "same_names_other_connectivity": 10, "two_templates_under_one_name": 8,
             "templates_reported_optimised_rechecked": 500, "templates_reported_unoptimised": 50, "build_files_with_volumes_first": 40}
@@ -155,7 +155,8 @@ VS_KINDS = [("virtual_sites2", "1", 2, lambda r: ["%.3f" % r.uniform(0.1, 0.9)])
             ("virtual_sites3", "3", 3, lambda r: ["%d" % r.randint(20, 160), "%.3f" % r.uniform(0.05, 0.2)]),
             ("virtual_sites3", "4", 3, lambda r: ["%.3f" % r.uniform(-0.5, 0.5), "%.3f" % r.uniform(-0.5, 0.5), "%.3f" % r.uniform(-5, 5)]),
             ("virtual_sites4", "2", 4, lambda r: ["%.3f" % r.uniform(0.5, 1.5), "%.3f" % r.uniform(0.5, 1.5), "%.3f" % r.uniform(0.05, 0.2)]),
-            ("virtual_sitesn", "1", 3, lambda r: [])]
+            ("virtual_sitesn", "1", 3, lambda r: []),
+            ("virtual_sitesn", "1", 1, lambda r: [])]       # a site on top of a single atom (the CA site of Martini 3 proteins)
 
 
 def gen_residue(rng, resname, variant=0):
@@ -225,6 +226,8 @@ def gen_residue(rng, resname, variant=0):
             bonds.append((0, 3, round(rng.uniform(0.3, 0.45), 3)))
         defs = list(range(ndef))
         vs.append((sec, f, nreal, defs, pf(rng)))
+        if ndef == 1:
+            kind = "vs_stacked"
     return {"name": resname, "kind": kind, "atoms": atoms, "bonds": bonds, "angles": angles, "imps": imps, "vs": vs, "cons": cons}
 
 
@@ -444,6 +447,7 @@ def run_case(cid, rng, workdir):
                       (r["name"], r["atoms"], keys), w)
     reps = [(r, sorted(keys)[0]) for r, keys in classes.values()]
     bump(res, "residue_classes", len(reps))
+    bump(res, "stacked_site_residues", sum(1 for r_, _k in reps if r_["kind"] == "vs_stacked"))
     names = {}
     for r, key in reps:
         names.setdefault(r["name"], set()).add(id(r))
